@@ -520,7 +520,8 @@ def _do_save(ctx, pool, fs, files, objs, kind, o):
             dest = entry['path']
     if target == 'append_handle':
         # a second object pickled to the same open handle, right behind the first (pickle streams may hold several objects)
-        c = [e for e in files.of('pkl', with_handle=True) if e['twin'] is not None and not e.get('appended')]
+        c = [e for e in files.of('pkl', with_handle=True) if e['twin'] is not None and not e.get('appended')
+             and not e.get('faulty_handle')]
         if ft != 'pkl' or not c or o['fault']:
             target = 'handle'
         else:
@@ -570,7 +571,8 @@ def _do_save(ctx, pool, fs, files, objs, kind, o):
     elif target == 'handle':
         path = fs.new_path(ext)
         handle = dest = fs.open_handle(path, 'w+b', fault=fault if ft == 'pkl' else None)
-        entry = {'path': path, 'ft': ft, 'kind': kind, 'twin': None, 'handle': handle, 'crash': None}
+        entry = {'path': path, 'ft': ft, 'kind': kind, 'twin': None, 'handle': handle, 'crash': None,
+                 'faulty_handle': bool(fault) and ft == 'pkl'}
         files.entries.append(entry)
     elif target == 'bytesio':
         handle = dest = io.BytesIO()
